@@ -10,7 +10,7 @@ import (
 	"github.com/smart-core-os/sc-golang/verifh/lib"
 )
 
-var genO = lib.GenOpts{FieldProb: -1}
+var genO = lib.GenOpts{FieldProb: -1, Target: 3, MaxDepth: 2, MaxElems: 2}
 
 // GenConfig draws a resource configuration.
 func GenConfig(t *rapid.T, isValue bool, simple bool) (Config, []proto.Message) {
@@ -154,6 +154,9 @@ func GenOp(t *rapid.T, r *Runner, alphabet []proto.Message, readsToo bool) Op {
 		if rapid.IntRange(0, 5).Draw(t, "writeTime") == 0 {
 			op.WriteTick = int64(rapid.IntRange(1, 1000000).Draw(t, "tick"))
 		}
+	}
+	if op.Kind == OpDelete && rapid.IntRange(0, 5).Draw(t, "deleteWriteTime") == 0 {
+		op.WriteTick = int64(rapid.IntRange(1, 1000000).Draw(t, "deleteTick"))
 	}
 	// preconditions
 	switch k := rapid.IntRange(0, 9).Draw(t, "expKind"); {
